@@ -187,7 +187,36 @@ class Evaluator:
                 v = wrap(v, pt['bits'], pt.get('sg', True))
             env[p['id']] = v
         sub = Evaluator(self.prog, g, env, arrays, self.depth + 1)
+        rt = T(g, g.get('ret'))
+
+        def fin(r):
+            if rt.get('bool'):
+                return int(bool(r))
+            if rt.get('bits'):
+                return wrap(r, rt['bits'], rt.get('sg', True))
+            return r
+
+        def ret_of(st):
+            # `return e;`  or  `if (c) return a; else return b;` (loop-free decision trees only)
+            if st is None:
+                return None
+            if st.get('k') == 'return' and st.get('e') is not None:
+                return fin(sub.ev(st['e']))
+            if st.get('k') == 'block' and len(st['s']) == 1:
+                return ret_of(st['s'][0])
+            if st.get('k') == 'if' and not st.get('init') and not st.get('cv'):
+                if sub.ev(st['c']):
+                    return ret_of(st['then'])
+                if st.get('else') is not None:
+                    return ret_of(st['else'])
+                return None
+            raise Undecidable('%s is not a loop-free decision tree' % fn)
         for st in body:
+            if st.get('k') == 'if':
+                r = ret_of(st)
+                if r is not None:
+                    return r
+                continue
             if st.get('k') == 'decl':
                 for v in st['vars']:
                     ini = strip(v.get('init') or {})
